@@ -641,8 +641,16 @@ func checkReiter[K any](h *hk[K], t Tree[K, uint64], ref *refMap[K], method, sa,
 		}
 		return true
 	})
-	// ranging over the same sequence value again yields the full result again
+	// ranging over the same sequence value again yields the full result again — also when read-only calls
+	// (which leave the tree unchanged) happen in between
 	for pass := 0; pass < 2; pass++ {
+		if pass == 1 {
+			if len(full.ks) > 0 {
+				t.Search(h.clone(full.ks[0]))
+			}
+			t.Minimum()
+			collect(t.Range(h.clone(mkKey(h, sa)), h.clone(mkKey(h, sa))))
+		}
 		again := collect(seq)
 		ok := len(again.ks) == len(full.ks)
 		if ok {
